@@ -104,9 +104,13 @@ theorem C06_scalar_model_f32 (name : Option String) (a : Option Nat) (bits : Nat
     scalarValue name (some 4) (some 4) (some ⟨leBytes 4 bits, a⟩) = some (.f32 bits) := by
   simp [scalarValue, leBytes_length, take_leBytes, C06_scalar_unsigned 4 bits h]
 
-theorem C06_scalar_model_char (name : Option String) (a : Option Nat) (c : Nat) (h : c < 256 ^ 4) :
+theorem C06_scalar_model_char (name : Option String) (a : Option Nat) (c : Nat) (hv : validChar c = true) :
     scalarValue name (some 4) (some 16) (some ⟨leBytes 4 c, a⟩) = some (.chr c) := by
-  simp [scalarValue, leBytes_length, take_leBytes, C06_scalar_unsigned 4 c h]
+  have h : c < 256 ^ 4 := by
+    simp only [validChar, Bool.or_eq_true, Bool.and_eq_true, decide_eq_true_eq] at hv
+    have : (256 : Nat) ^ 4 = 4294967296 := by decide
+    omega
+  simp [scalarValue, leBytes_length, take_leBytes, C06_scalar_unsigned 4 c h, hv]
 
 theorem C06_scalar_model_bool (name : Option String) (a : Option Nat) (b : Bool) :
     scalarValue name (some 1) (some 2) (some ⟨[if b then 1 else 0], a⟩) = some (.bool b) := by
